@@ -167,7 +167,7 @@ v("hy-movable", ["C18"], HY, "            dressed_new._movable = False\n", "", r
 REDRESS = "            dressed_new._reinit_from_xobject(\n                _xobject=getattr(container._xobject, self.name)\n            )\n"
 v("hy-restore-xobject", ["C18"], HY, REDRESS, "", rule="H2", note="neither _xobject nor the nested parts are restored after the __dict__ copy")
 v("hy-restore-xobject-only", ["C18"], HY, REDRESS, "            dressed_new._xobject = getattr(container._xobject, self.name)\n", rule="H6", note="PF22 twin: nested dressed parts keep viewing the assigned object")
-v("hy-reinit-copy-all-but-xobject", ["C18"], HY, "                        if kk not in vv.__dict__.keys():\n", "                        if kk != \"_xobject\":\n", rule="H6", note="seeded C18-a in one line")
+v("hy-reinit-copy-all-but-xobject", ["C18"], HY, "                        if kk not in vv.__dict__.keys():\n", "                        if kk != \"_xobject\":\n", expect="silent", note="seeded C18-a in one line: harmless since the PF22/PF23 repairs (the assignment that follows re-dresses and re-validates the copy)")
 v("hy-benign-skip-bound", ["C18"], HY, "                        if kk not in vv.__dict__.keys():\n", "                        if kk not in vv.__dict__:\n", expect="silent")
 
 v("hy-move-refs", ["C18"], HY, "        if self._xobject._has_refs and not self._force_moveable:", "        if self._xobject._has_refs and self._force_moveable:", rule="H1")
